@@ -46,6 +46,16 @@ def _atoms(e, env):
     return frozenset([('rec', c)]) if c else frozenset([('raw', core.norm(e))])
   if isinstance(e, ast.BinOp) and isinstance(e.op, ast.BitOr):
     return _atoms(e.left, env) | _atoms(e.right, env)
+  if isinstance(e, ast.Call) and isinstance(e.func, ast.Attribute) and \
+      e.func.attr == 'union' and not e.keywords and not any(
+          isinstance(a, ast.Starred) for a in e.args):
+    out = _atoms(e.func.value, env)
+    for a in e.args:
+      out = out | _atoms(a, env)
+    return out
+  if isinstance(e, ast.Call) and core.dotted(e.func) in ('set', 'frozenset') and \
+      len(e.args) == 1 and not e.keywords:
+    return _atoms(e.args[0], env)          # a copy has the same elements
   if isinstance(e, ast.Name) and e.id in env:
     return env[e.id]
   return frozenset([('raw', core.norm(e))])
